@@ -54,6 +54,11 @@ pub struct PartSpec {
 #[derive(Clone, Debug, Serialize, Deserialize)]
 pub struct FormSpec {
     pub parts: Vec<PartSpec>,
+    /// a Content-Type the caller had set before the form was attached: 0 none, 1 on the request
+    /// (`.header(CONTENT_TYPE, ..)` before `.body(form)`), 2 as a session default header; the form's
+    /// own Content-Type (with the boundary) must be what goes out
+    #[serde(default)]
+    pub preset_content_type: u8,
 }
 
 fn ascii_pattern(n: usize) -> Vec<u8> {
@@ -230,7 +235,7 @@ fn enumerate(tier: Tier) -> (Vec<Case>, BTreeMap<&'static str, u64>) {
     let mut push = |family: &'static str, parts: Vec<PartSpec>, sweep: bool| {
         cases.push(Case {
             family,
-            form: FormSpec { parts },
+            form: FormSpec { parts, preset_content_type: 0 },
             sweep,
         })
     };
@@ -450,6 +455,21 @@ fn enumerate(tier: Tier) -> (Vec<Case>, BTreeMap<&'static str, u64>) {
             push("sweep", vec![text_part("lead", DataSpec::Ascii(n))], true);
         }
     }
+
+    // F-preset: a Content-Type header was already there when the form was attached
+    let presets: Vec<Case> = cases
+        .iter()
+        .filter(|c| matches!(c.family, "empty") || (c.family != "sweep" && c.form.parts.len() >= 2))
+        .take(40)
+        .flat_map(|c| {
+            [1u8, 2].into_iter().map(move |k| Case {
+                family: "preset-content-type",
+                form: FormSpec { parts: c.form.parts.clone(), preset_content_type: k },
+                sweep: false,
+            })
+        })
+        .collect();
+    cases.extend(presets);
 
     let mut per_family: BTreeMap<&'static str, u64> = BTreeMap::new();
     for c in &cases {
@@ -1007,7 +1027,16 @@ fn run_send(form: &FormSpec, write_max: Option<usize>, prev_boundary: &str) -> R
     let mut script = Script::plain(RESPONSE.to_vec());
     script.write_max = write_max;
     let world = World::single(script, false);
-    let prepared = match guarded(|| attohttpc::post(URL).body(multipart).try_prepare()) {
+    let preset = form.preset_content_type;
+    let prepared = match guarded(|| match preset {
+        1 => attohttpc::post(URL).header("Content-Type", "application/json").body(multipart).try_prepare(),
+        2 => {
+            let mut s = attohttpc::Session::new();
+            s.header("Content-Type", "multipart/form-data; boundary=stale");
+            s.post(URL).body(multipart).try_prepare()
+        }
+        _ => attohttpc::post(URL).body(multipart).try_prepare(),
+    }) {
         Err(p) => return Err(("C15:panic", format!("try_prepare panicked: {p}"))),
         Ok(Err(e)) => return Err(("C15:build-failed", format!("try_prepare failed: {e}"))),
         Ok(Ok(p)) => p,
@@ -1316,7 +1345,7 @@ pub fn c15(ctx: &Ctx) -> Report {
         ctx.violation(
             "C15:boundary-repeats",
             format!("{n_boundaries} builds announced only {n_distinct_boundaries} different boundaries"),
-            json!({"engine": "c15", "family": "empty", "form": FormSpec { parts: vec![] }}),
+            json!({"engine": "c15", "family": "empty", "form": FormSpec { parts: vec![], preset_content_type: 0 }}),
             u64::MAX,
         );
     }
